@@ -97,25 +97,30 @@ def dec_table(tbl):
 # ---------------------------------------------------------------------------
 # canonical form
 
-def canon_cell(v):
+def canon_cell(v, _depth=0):
+    d = _depth + 1
+    if d > 25:
+        # (a structure that contains itself, or absurdly deep: code under
+        # test gone wrong can produce one; it must compare, not recurse)
+        return ('too-deep', type(v).__name__)
     if isinstance(v, (tuple, list)) and not hasattr(v, '_fields') \
             or type(v).__name__ == 'Record':
         return (type(v).__name__ if type(v).__name__ != 'Record' else 'tuple',
-                tuple(canon_cell(x) for x in v))
+                tuple(canon_cell(x, d) for x in v))
     if isinstance(v, (set, frozenset)):
         return (type(v).__name__,
-                tuple(sorted((canon_cell(x) for x in v), key=repr)))
+                tuple(sorted((canon_cell(x, d) for x in v), key=repr)))
     if isinstance(v, dict):
-        return ('dict', tuple((canon_cell(k), canon_cell(x))
+        return ('dict', tuple((canon_cell(k, d), canon_cell(x, d))
                               for k, x in v.items()))
     if isinstance(v, BaseException):
         try:
-            a = tuple(canon_cell(x) for x in v.args)
+            a = tuple(canon_cell(x, d) for x in v.args)
         except Exception:
             a = ('?',)
         return ('exc', type(v).__name__, a)
     if hasattr(v, '_fields') and isinstance(v, tuple):
-        return ('namedtuple', tuple(canon_cell(x) for x in v))
+        return ('namedtuple', tuple(canon_cell(x, d) for x in v))
     r = repr(v)
     if ' at 0x' in r:
         r = r.split(' at 0x')[0]
@@ -142,12 +147,20 @@ def canon_exc(e):
 def snapshot(obj):
     """Deep canonical snapshot of a container of rows (for mutation checks):
     keeps container types at every level."""
+    return _snapshot(obj, 0)
+
+
+def _snapshot(obj, depth):
+    if depth > 25:
+        return ('too-deep', type(obj).__name__)
     if isinstance(obj, (list, tuple)):
-        return (type(obj).__name__, tuple(snapshot(x) for x in obj))
+        return (type(obj).__name__,
+                tuple(_snapshot(x, depth + 1) for x in obj))
     if isinstance(obj, dict):
-        return ('dict', tuple((snapshot(k), snapshot(v))
+        return ('dict', tuple((_snapshot(k, depth + 1),
+                               _snapshot(v, depth + 1))
                               for k, v in obj.items()))
-    return canon_cell(obj)
+    return canon_cell(obj, depth)
 
 
 def show_row(crow):
